@@ -180,6 +180,9 @@ def build(harnesses, workdir):
             short = ph["pretty_name"].split("::")[-1]
             dst = os.path.join(workdir, short + ".symtab.out")
             shutil.copy(ph["goto_file"], dst)
+            pmap = ph["goto_file"].replace(".symtab.out", ".pretty_name_map.json")
+            if os.path.exists(pmap):
+                shutil.copy(pmap, os.path.join(workdir, short + ".names.json"))
             result[short] = {"symtab": dst, "mangled": ph["mangled_name"],
                              "unwind": ph["attributes"].get("unwind_value"),
                              "stubs": [s.get("original", str(s)) if isinstance(s, dict) else str(s)
@@ -247,6 +250,34 @@ def resolve_unwindset(h, goto):
     return pairs, {"matched": {k: sorted(set(v)) for k, v in used.items()}, "unmatched_patterns": unused}
 
 
+# Recursive drop glue of std::io::Error (bit-packed repr holding a Box<dyn Error>) and of the error
+# enums that wrap it: without a separate bound CBMC unrolls it to the loop bound on every path that
+# drops an error value. Depth 3 is more than any real nesting; exceeding it trips CBMC's recursion
+# unwinding assertion, which this runner reports as "unwind bound too small" (never as a pass).
+RECURSION_PATTERNS = (
+    "drop_glue::<std::io::Error>", "drop_glue::<core::io::error::", "core::io::error::repr::Repr as std::ops::Drop",
+    "core::io::error::CustomOwner as std::ops::Drop", "<std::io::Error as std::error::Error>::",
+    "drop_glue::<mila::", "drop_glue::<std::boxed::Box<dyn std::error::Error",
+    "drop_glue::<nintendo_lz::", "drop_glue::<binread::",
+)
+RECURSION_BOUND = 3
+
+
+def recursion_unwindset(h, workdir):
+    path = os.path.join(workdir, h.name + ".names.json")
+    if not os.path.exists(path):
+        return []
+    try:
+        names = json.load(open(path))
+    except Exception:
+        return []
+    out = []
+    for mangled, pretty in names.items():
+        if pretty and mangled.startswith("_R") and any(p_ in pretty for p_ in RECURSION_PATTERNS):
+            out.append(f"{mangled}:{RECURSION_BOUND}")
+    return out
+
+
 def run_cbmc(h, info, workdir):
     t0 = time.time()
     res = {"harness": h.name, "status": "ERROR", "detail": "", "wall_s": 0.0, "checks": [],
@@ -263,6 +294,7 @@ def run_cbmc(h, info, workdir):
     if pairs is None:
         res["detail"] = "could not list loops"
         return res
+    pairs = list(pairs) + recursion_unwindset(h, workdir)
     if pairs:
         cmd += ["--unwindset", ",".join(pairs)]
     res["unwind"] = unwind
@@ -419,7 +451,7 @@ def classify(h, res):
 # --------------------------------------------------------------------------------------------
 
 def load_known():
-    """Lines: `finding: property=<id> where=<function substring> what=<description substring> :: text`
+    """Lines: `finding: property=<id> harness=<harness name> where=<function substring> what=<description substring> :: text`
               `fixed: property=<id> <commit> <what failed>`   (informational, suppresses nothing)"""
     out = []
     if not os.path.exists(KNOWN):
@@ -428,16 +460,19 @@ def load_known():
         ln = ln.strip()
         if not ln.startswith("finding:"):
             continue
-        m = re.match(r"finding:\s*property=(\S+)\s+where=(.+?)\s+what=(.+?)\s*::\s*(.*)$", ln)
+        m = re.match(r"finding:\s*property=(\S+)\s+harness=(\S+)\s+where=(.+?)\s+what=(.+?)\s*::\s*(.*)$", ln)
         if m:
-            out.append({"prop": m.group(1), "where": m.group(2).strip(), "what": m.group(3).strip(),
-                        "text": m.group(4).strip()})
+            out.append({"prop": m.group(1), "harness": m.group(2), "where": m.group(3).strip(),
+                        "what": m.group(4).strip(), "text": m.group(5).strip()})
     return out
 
 
-def match_known(prop, check, known):
+def match_known(prop, harness, check, known):
+    """A finding is identified by property + the harness (= the specific scenario that fails) + the function
+    and description of the failing check; the same check failing in any other scenario is not suppressed."""
     for k in known:
-        if k["prop"] == prop and k["where"] in check["function"] and k["what"] in check["desc"]:
+        if (k["prop"] == prop and k["harness"] == harness and k["where"] in check["function"]
+                and k["what"] in check["desc"]):
             return k
     return None
 
@@ -446,91 +481,173 @@ def match_known(prop, check, known):
 # Replay (Kani concrete playback -> native unit test against the real crate)
 # --------------------------------------------------------------------------------------------
 
-def replay(h, prop, failures):
-    """Re-run the failing harness with Kani's concrete playback, then execute the generated unit test
-    natively (dev profile = the overflow-checked semantics Kani models). Returns (reproduced, path, note)."""
+def extract_concrete_values(trace):
+    """Kani's concrete-playback rule, applied to a CBMC JSON trace: every value returned by
+    kani::any_raw_* (one assignment per scalar / per array element), in call order, as
+    little-endian bytes."""
+    vals = []
+    for st in trace:
+        if st.get("stepType") != "assignment":
+            continue
+        lhs = str(st.get("lhs", ""))
+        fn = st.get("sourceLocation", {}).get("function", "")
+        if not lhs.startswith("goto_symex$$return_value") or not fn.startswith("kani::any_raw_"):
+            continue
+        v = st.get("value", {})
+        if "binary" not in v:
+            continue  # whole-array assignment; its elements follow one by one
+        bits = v["binary"]
+        width = int(v.get("width", len(bits)))
+        nbytes = max(1, (width + 7) // 8)
+        vals.append(list(int(bits, 2).to_bytes(nbytes, "little")))
+    return vals
+
+
+def cbmc_counterexamples(h, info, workdir, wanted):
+    """Re-run CBMC for one failing check without formula slicing (so the trace assigns every nondet
+    value, as Kani's concrete playback does); if CBMC cannot build the unsliced formula, fall back to
+    the sliced one. Returns [(check, concrete values)]."""
+    out = _cbmc_counterexamples(h, info, workdir, wanted, sliced=False)
+    if not out:
+        out = _cbmc_counterexamples(h, info, workdir, wanted, sliced=True)
+    return out
+
+
+def _cbmc_counterexamples(h, info, workdir, wanted, sliced):
+    goto, err = prepare_goto(h, info, workdir)
+    if err:
+        return []
+    unwind = h.unwind if h.unwind is not None else info.get("unwind")
+    cmd = ["cbmc"] + [f for f in CBMC_FLAGS if sliced or f != "--slice-formula"]
+    if unwind is not None:
+        cmd += ["--unwind", str(unwind)]
+    pairs, _ = resolve_unwindset(h, goto)
+    pairs = list(pairs or []) + recursion_unwindset(h, workdir)
+    if pairs:
+        cmd += ["--unwindset", ",".join(pairs)]
+    # one failing check is enough for a replay; asking for it alone keeps the trace small
+    first = sorted({c["id"] for c in wanted})[0]
+    cmd += ["--property", first, "--stop-on-fail"]
+    cmd += [goto, "--json-ui"]
+    jpath = os.path.join(workdir, h.name + ".trace.json")
+    with open(jpath, "w") as jf:
+        p = subprocess.Popen(cmd, stdout=jf, stderr=subprocess.STDOUT, preexec_fn=limit_mem(max(h.mem_gb, 16)))
+        try:
+            p.wait(timeout=3 * h.timeout)
+        except subprocess.TimeoutExpired:
+            os.killpg(p.pid, 9)
+            p.wait()
+            return []
+    try:
+        data = json.load(open(jpath))
+    except Exception as ex:
+        log(f"   (trace run of {h.name}: output unparsable: {ex})")
+        return []
+    out = []
+    keys = {(c["id"]) for c in wanted}
+    for item in data:
+        if not isinstance(item, dict):
+            continue
+        for r in item.get("result", []):
+            if r.get("status") == "FAILURE" and r.get("property") in keys and "trace" in r:
+                out.append((r.get("property"), extract_concrete_values(r["trace"])))
+        # --stop-on-fail prints the trace as a top-level item
+        if "trace" in item and not out:
+            out.append((first, extract_concrete_values(item["trace"])))
+    if not out:
+        msgs = [str(i.get("messageText", ""))[:200] for i in data if isinstance(i, dict) and i.get("messageType") in ("ERROR", "WARNING")]
+        log(f"   (trace run of {h.name} for property {first}: no trace; messages: {msgs[-3:]})")
+    for f in (goto, jpath):
+        try:
+            os.remove(f)
+        except OSError:
+            pass
+    return out
+
+
+def replay(h, prop, failures, info=None, workdir=None):
+    """Turn the solver's assignment into a unit test (Kani's concrete-playback runtime feeds the values to
+    the harness's kani::any() calls) and run it natively against the real crate, dev profile = the
+    overflow-checked semantics Kani models. Returns (reproduced, path, note)."""
     os.makedirs(os.path.join(REPLAYS, prop), exist_ok=True)
-    rdir = os.path.join(WORK, f"replay_{h.name}")
-    shutil.rmtree(rdir, ignore_errors=True)
-    os.makedirs(rdir)
-    for item in ("src", "Cargo.toml", "Cargo.lock", ".cargo"):
-        s = os.path.join(CRATE, item)
-        d = os.path.join(rdir, item)
-        if os.path.isdir(s):
-            shutil.copytree(s, d)
-        elif os.path.exists(s):
-            shutil.copy(s, d)
-    cmd = ["cargo", "kani", "--target-dir", TARGET, "-Z", "stubbing", "-Z", "concrete-playback",
-           "--concrete-playback=inplace", "--exact", "--harness", f"{h.module}::{h.name}"]
-    unwind_args = []
-    if h.unwindset:
-        # per-loop bounds are only known to this runner; give Kani the largest one as a uniform bound
-        unwind_args = ["--default-unwind", str(max([h.unwind or 0] + list(h.unwindset.values())))]
-    p = run(cmd + unwind_args, cwd=rdir, env=ENV, timeout=max(3 * h.timeout, 900))
-    open(os.path.join(rdir, "kani_playback_gen.log"), "w").write(p.stdout)
-    src = open(os.path.join(rdir, "src", h.module + ".rs")).read()
-    tests = re.findall(r"fn (kani_concrete_playback_\w+)\s*\(", src)
     path = os.path.join(REPLAYS, prop, h.name + ".replay.txt")
-    if not tests:
-        open(path, "w").write(f"harness {h.name}: Kani produced no concrete playback test\n" + p.stdout[-4000:])
-        shutil.rmtree(rdir, ignore_errors=True)
-        return False, path, "no concrete playback test generated"
-    blocks = re.findall(r"(#\[test\]\s*fn kani_concrete_playback_\w+\s*\(\)\s*\{.*?\n\})", src, re.S)
-    env = dict(ENV)
-    env["CARGO_TARGET_DIR"] = os.path.join(TARGET, "playback")
-    q = run(["cargo", "kani", "playback", "-Z", "concrete-playback", "--", "kani_concrete_playback"],
-            cwd=rdir, env=env, timeout=3600)
-    logs = [q.stdout[-6000:]]
-    per_test = dict(re.findall(r"test \S*?(kani_concrete_playback_\w+) \.\.\. (\w+)", q.stdout))
-    reproduced = [per_test.get(t) == "FAILED" for t in tests]
+    cex = cbmc_counterexamples(h, info, workdir, failures) if info else []
+    if not cex:
+        open(path, "w").write(f"harness {h.name}: no counterexample trace could be extracted\n")
+        return False, path, "no counterexample trace extracted"
+    # distinct value vectors only, at most 4 tests
+    seen, tests = [], []
+    for prop_id, vals in cex:
+        if vals not in seen:
+            seen.append(vals)
+            tests.append((prop_id, vals))
+    tests = tests[:4]
+    blocks = []
+    for k, (prop_id, vals) in enumerate(tests):
+        body = ",\n".join("        vec![" + ", ".join(str(b) for b in v) + "]" for v in vals)
+        blocks.append(
+            f"#[test]\nfn verif_replay_{h.name}_{k}() {{\n"
+            f"    // counterexample for: {prop_id}\n"
+            f"    crate::util::set_playback(true);\n"
+            f"    let concrete_vals: Vec<Vec<u8>> = vec![\n{body}\n    ];\n"
+            f"    kani::concrete_playback_run(concrete_vals, {h.name});\n}}")
     with open(path, "w") as f:
         f.write(f"# property {prop}, harness {h.module}::{h.name} ({os.path.relpath(h.file, VERIF)}:{h.line})\n")
         f.write("# failing checks reported by CBMC:\n")
         for c in failures:
             f.write(f"#   {c['function']} @ {c['file']}:{c['line']}: {c['desc']}\n")
-        f.write("# concrete playback unit test(s) generated by Kani (inputs = solver's assignment);\n")
+        f.write("# unit test(s) built from the solver's assignment (values of the harness's kani::any() calls, in order);\n")
         f.write("# re-run with: python3 /verif/run_check.py --replay " + path + "\n")
         f.write(f"# module: {h.module}\n")
         for b in blocks:
             f.write(b + "\n")
+    rc, log_txt, per_test = run_replay_tests(h.module, blocks)
+    reproduced = [per_test.get(f"verif_replay_{h.name}_{k}") == "FAILED" for k in range(len(tests))]
+    with open(path, "a") as f:
         f.write("# native run (dev profile):\n")
-        for lg in logs:
-            for ln in lg.split("\n"):
-                f.write("#   " + ln + "\n")
-    shutil.rmtree(rdir, ignore_errors=True)
+        for ln in log_txt.split("\n"):
+            f.write("#   " + ln + "\n")
     return any(reproduced), path, "reproduced natively" if any(reproduced) else "did not reproduce natively"
+
+
+def run_replay_tests(module, blocks):
+    """Append the tests to a scratch copy of the harness crate and run them with `cargo kani playback`."""
+    rdir = os.path.join(WORK, f"replay_{module}_{os.getpid()}")
+    shutil.rmtree(rdir, ignore_errors=True)
+    os.makedirs(rdir)
+    ensure_lock_file()
+    for item in ("src", "Cargo.toml", "Cargo.lock", ".cargo"):
+        s_ = os.path.join(CRATE, item)
+        d_ = os.path.join(rdir, item)
+        if os.path.isdir(s_):
+            shutil.copytree(s_, d_)
+        elif os.path.exists(s_):
+            shutil.copy(s_, d_)
+    mp = os.path.join(rdir, "src", module + ".rs")
+    src = open(mp).read()
+    src += "\n#[cfg(test)]\nmod verif_replay {\n    use super::*;\n" + "\n".join(blocks) + "\n}\n"
+    open(mp, "w").write(src)
+    env = dict(ENV)
+    env["CARGO_TARGET_DIR"] = os.path.join(TARGET, "playback")
+    q = run(["cargo", "kani", "playback", "-Z", "concrete-playback", "--", "verif_replay"], cwd=rdir, env=env,
+            timeout=3600)
+    shutil.rmtree(rdir, ignore_errors=True)
+    per_test = dict(re.findall(r"test \S*?(verif_replay_\w+) \.\.\. (\w+)", q.stdout))
+    keep_from = q.stdout.find("running ")
+    log_txt = q.stdout[keep_from:][-5000:] if keep_from >= 0 else q.stdout[-3000:]
+    return q.returncode, log_txt, per_test
 
 
 def replay_file(path):
     txt = open(path).read()
     m = re.search(r"# module: (\w+)", txt)
-    blocks = re.findall(r"(#\[test\]\s*fn kani_concrete_playback_\w+\s*\(\)\s*\{.*?\n\})", txt, re.S)
+    blocks = re.findall(r"(#\[test\]\s*fn verif_replay_\w+\s*\(\)\s*\{.*?\n\})", txt, re.S)
     if not m or not blocks:
         log("nothing to replay in " + path)
         return 2
-    module = m.group(1)
-    rdir = os.path.join(WORK, "replay_manual")
-    shutil.rmtree(rdir, ignore_errors=True)
-    os.makedirs(rdir)
-    ensure_lock_file()
-    for item in ("src", "Cargo.toml", "Cargo.lock", ".cargo"):
-        s = os.path.join(CRATE, item)
-        d = os.path.join(rdir, item)
-        if os.path.isdir(s):
-            shutil.copytree(s, d)
-        elif os.path.exists(s):
-            shutil.copy(s, d)
-    mp = os.path.join(rdir, "src", module + ".rs")
-    src = open(mp).read()
-    # the harness modules are `#[cfg(kani)] mod x { ... }` bodies in files; append tests at file end
-    src += "\n#[cfg(kani)]\nmod replayed {\n    use super::*;\n" + "\n".join(blocks) + "\n}\n"
-    open(mp, "w").write(src)
-    env = dict(ENV)
-    env["CARGO_TARGET_DIR"] = os.path.join(TARGET, "playback")
-    q = run(["cargo", "kani", "playback", "-Z", "concrete-playback"], cwd=rdir, env=env)
-    log(q.stdout[-6000:])
-    shutil.rmtree(rdir, ignore_errors=True)
-    return 1 if re.search(r"test result: FAILED", q.stdout) else 0
+    rc, log_txt, per_test = run_replay_tests(m.group(1), blocks)
+    log(log_txt)
+    return 1 if any(v == "FAILED" for v in per_test.values()) else 0
 
 
 # --------------------------------------------------------------------------------------------
@@ -640,7 +757,8 @@ def main():
     tiers = ("quick",) if args.tier == "quick" else ("quick", "thorough")
     hs = [h for h in allh if h.prop == prop and h.tier in tiers]
     if args.only:
-        hs = [h for h in hs if args.only in h.name]
+        pats = [x for x in args.only.split(",") if x]
+        hs = [h for h in hs if any(x in h.name for x in pats)]
     if not hs:
         raise SystemExit(f"ERROR: no harnesses for {prop}")
     workdir = os.path.join(WORK, prop)
@@ -694,7 +812,7 @@ def main():
         if cl["failures"]:
             unknown = []
             for c in cl["failures"]:
-                k = match_known(prop, c, known)
+                k = match_known(prop, h.name, c, known)
                 if k:
                     line = f"KNOWN-FINDING: property={prop} {k['text']} [{c['function']}: {c['desc']}; harness {h.name}]"
                     if line not in known_hits:
@@ -711,7 +829,7 @@ def main():
                 else:
                     log(f"[{prop}]   replaying counterexample of {h.name} natively ...")
                     try:
-                        reproduced, path, note = replay(h, prop, unknown)
+                        reproduced, path, note = replay(h, prop, unknown, info[h.name], workdir)
                     except Exception as e:
                         reproduced, path, note = False, "", f"replay machinery failed: {e}"
                 if reproduced:
